@@ -28,7 +28,7 @@ import (
 
 func TestMain(m *testing.M) {
 	kit.Register("workload", workloadOracle)
-	kit.Describe("case = (configuration, pool of documents covering every block/inline/extension kind, N in 2..16 goroutines each with 1..6 actions (Convert / Parse / Parse+Render of an own tree), GOMAXPROCS in {1,2,4,16}, yield points injected through the destination writer and a no-op probe inline parser / AST transformer calling runtime.Gosched); all goroutines start behind a barrier on a FRESH shared Markdown value so that first-use initialisation races with itself; the package is built with -race and GORACE=halt_on_error, so any report stops the shard and the running workload becomes the replay; in addition every goroutine's output must equal the sequential canonical output; first use of process-wide tables is covered by re-executing the test binary for single workloads. non-trivial = at least two goroutines were inside goldmark at the same time on an instance first used in this case; distinct by hash of the case",
+	kit.Describe("case = (configuration, pool of documents covering every block/inline/extension kind, N in 2..16 goroutines each with 1..6 actions (Convert / Parse / Parse+Render of an own tree), GOMAXPROCS in {1,2,4,16}, yield points injected through the destination writer and a no-op probe inline parser / AST transformer calling runtime.Gosched); all goroutines start behind a barrier on a FRESH shared Markdown value so that first-use initialisation races with itself, or (one case in three) on an instance that first converted some of the documents sequentially - documents include long repeated ones that cross buffer-size thresholds; the package is built with -race and GORACE=halt_on_error, so any report stops the shard and the running workload becomes the replay; in addition every goroutine's output must equal the sequential canonical output; first use of process-wide tables is covered by re-executing the test binary for single workloads. non-trivial = at least two goroutines were inside goldmark at the same time on an instance first used in this case; distinct by hash of the case",
 		"the race detector flags unsynchronised conflicting accesses on executed paths irrespective of timing: the generator's job is path coverage", "concurrent rendering of one tree by several goroutines is not part of the statement")
 	kit.Main(m, "C07")
 }
@@ -89,7 +89,18 @@ func workloadOracle(c *kit.Case) error {
 	if p := int(c.Ints["procs"]); p > 0 {
 		defer runtime.GOMAXPROCS(runtime.GOMAXPROCS(p))
 	}
-	shared := mk() // fresh: first use happens concurrently below
+	shared := mk() // fresh: first use happens concurrently below, unless the case asks for a history
+	for _, act := range strings.Split(c.Strs["warm"], ",") {
+		// sequential history on the shared instance (e.g. one long document): buffers an earlier call grew
+		// and the instance kept must not be shared by the concurrent calls that follow
+		if len(act) < 2 {
+			continue
+		}
+		if i, err := strconv.Atoi(act[1:]); err == nil && i >= 0 && i < nd {
+			var sink bytes.Buffer
+			_ = shared.Convert(docs[i], &sink)
+		}
+	}
 	var wg sync.WaitGroup
 	start := make(chan struct{})
 	errs := make([]error, len(plans))
@@ -201,7 +212,13 @@ func drawWorkload(t *rapid.T) *kit.Case {
 	nd := rapid.IntRange(2, 6).Draw(t, "ndocs")
 	for i := 0; i < nd; i++ {
 		var d []byte
-		switch rapid.IntRange(0, 3).Draw(t, "dk") {
+		switch rapid.IntRange(0, 4).Draw(t, "dk") {
+		case 4:
+			if rapid.Bool().Draw(t, "long") {
+				d = gen.LongDoc(t, gen.Any, "long") // size thresholds (more than 128 lines x nesting levels)
+			} else {
+				d = []byte(strings.Repeat(rapid.SampledFrom([]string{"- a\n", "- a\n\n", "> q\n", "line\n", "1. x\n   y\n", "|a|b|\n"}).Draw(t, "unit"), rapid.IntRange(130, 400).Draw(t, "rep")))
+			}
 		case 0:
 			d = gen.Soup(t, gen.Any, 20, "soup")
 		case 1:
@@ -223,6 +240,13 @@ func drawWorkload(t *rapid.T) *kit.Case {
 		plans = append(plans, strings.Join(acts, ","))
 	}
 	c.S("plan", strings.Join(plans, ";"))
+	if rapid.IntRange(0, 2).Draw(t, "warm") == 0 {
+		var w []string
+		for k, n := 0, rapid.IntRange(1, 3).Draw(t, "nwarm"); k < n; k++ {
+			w = append(w, "c"+strconv.Itoa(rapid.IntRange(0, nd-1).Draw(t, "wdoc")))
+		}
+		c.S("warm", strings.Join(w, ","))
+	}
 	c.I("procs", int64(rapid.SampledFrom([]int{1, 2, 4, 16}).Draw(t, "procs")))
 	c.I("yield", int64(rapid.SampledFrom([]int{0, 1, 3, 7}).Draw(t, "yield")))
 	return c
